@@ -36,7 +36,9 @@ Definition data_match (f : option (list N * dmode)) (d : list N) : bool :=
   end.
 Definition nlen {A} (l : list A) : N := N.of_nat (length l).
 
-(* the filter_map body of get_cells ([cap] = false) / get_cells_capacity ([cap] = true) *)
+(* the filter_map body of get_cells and get_cells_capacity.  [cap] = true is
+   get_cells_capacity as it was before fix b7a7b39 (upper bound of
+   script_len_range inclusive), kept for QueryProofs.capacity_old_refuted *)
 Definition cell_pass (cap : bool) (lockq : bool) (f : filter_opts) (bn : N) (o : output) : bool :=
   let other := if lockq then o_type o else Some (o_lock o) in
   (match f_script f with
@@ -116,7 +118,7 @@ Definition get_cells (st : store) (q : squery) : option (list cell_result * list
 (* order Asc, no cursor, no limit; answers None when there is no tip *)
 Definition get_cells_capacity (st : store) (q : squery) : option (option (N * N * N)) :=
   let rows := iter_rows crow_key (cell_rows (sq_lock q) st) (sq_script q) false None in
-  match collect_cells st q true (S (length rows)) rows with
+  match collect_cells st q false (S (length rows)) rows with
   | Some l =>
       let total := fold_left N.add (map (fun x => snd (snd x)) l) 0%N in
       Some (match tip st with Some (n, i) => Some (total, n, i) | None => None end)
